@@ -1,93 +1,502 @@
 """C04 — results depend on the instant, never on the Date's scale label."""
+import ast
+import copy
+import datetime as _dtm
+import itertools
 import math
 import os
+import pickle
 
 from harness import core
 from harness.core import Outcome
 
 ID = "C04"
-LEAN_TARGETS = ["BeyondVerif.Props.C04"]
+LEAN_TARGETS = ["BeyondVerif.Props.C04", "BeyondVerif.Witness.C04"]
 THEOREMS = [
-    "BeyondVerif.C04.instant_label_free",
-    "BeyondVerif.C04.relabel_same_instant",
-    "BeyondVerif.C04.delta_label_independent",
-    "BeyondVerif.C04.utcFields_label_independent",
-    "BeyondVerif.C04.tdiff_label_independent",
-    "BeyondVerif.C04.tle_epoch_label_independent",
-    "BeyondVerif.C04.eop_day_label_independent",
-    "BeyondVerif.C04.eop_day_own_scale_depends_on_label",
+    "BeyondVerif.C04.mk_carries_record_of_utc_day",
+    "BeyondVerif.C04.record_function_of_instant",
+    "BeyondVerif.C04.record_function_of_instant_mono",
+    "BeyondVerif.C04.modernLeap_monotone",
+    "BeyondVerif.C04.relabel_keeps_instant_and_record",
+    "BeyondVerif.C04.relabel_ut1_within_slack",
+    "BeyondVerif.C04.relabel_any_within_slack",
+    "BeyondVerif.C04.add_is_constructor",
+    "BeyondVerif.C04.add_carries_record_of_utc_day",
+    "BeyondVerif.C04.add_function_of_instant",
+    "BeyondVerif.C04.add_after_relabel",
+    "BeyondVerif.C04.range_dates_are_sums",
+    "BeyondVerif.C04.range_dates_carry_record",
+    "BeyondVerif.C04.consumers_function_of_instant",
+    "BeyondVerif.C04.utc_fields_function_of_instant",
+    "BeyondVerif.C04.consumers_within_slack",
+    "BeyondVerif.C04.parse_date_passes_scale",
+    "BeyondVerif.C04.parse_date_call_sites_use_time_system",
+    "BeyondVerif.C04.parseDate_scale_reaches_date",
+    "BeyondVerif.C04.parseDate_reading_label_free",
+    "BeyondVerif.C04.ccsds_epoch_roundtrip_partial",
+    "BeyondVerif.C04.ccsds_message_labels",
+    "BeyondVerif.C04W.ccsds_mixed_label_moves_instant",
+    "BeyondVerif.C04W.same_day_shortcut_keeps_wrong_record",
+    "BeyondVerif.C04W.eop_day_own_scale_depends_on_label",
 ]
-LEVEL_TEXT = ("Lean theorems over an integer-microsecond model of Date (value = instant in the reference scale + a label): every date-handling step "
-              "used by the date-consuming operations (time since epoch, UTC calendar fields handed to SGP4, the TLE epoch field, ordering/equality) "
-              "is a function of the instant alone, for all instants and all pairs of labels; the EOP day lookup, which used the day number of the label scale (finding, "
-              "fixed by fc514f7), is now by UTC day and proved label-free; the old behaviour keeps a kernel-checked regression witness. The model is tied to the "
-              "code by a correspondence run on Date/timedelta operations and by an oracle sweep of every date-consuming public operation x 6 labels "
-              "for the argument date x 6 labels for the epoch on the real API.")
-LEVEL_NOTE = ("the theorems cover the date-handling layer only; that each operation uses the date only through those steps is established by the "
-              "oracle sweep on the real API, not by proof; UT1/TDB conversions are within 1 us, so results are compared with |v| x 3 us tolerance")
-TECHNIQUE = "Lean 4 proof over an integer-microsecond date model; differential correspondence; exhaustive label x label sweep of the real operations"
-TRUSTED = ["harness: relabelling is done with Date.change_scale on the real API; EOP tables from tests/data/pole"]
+LEVEL_TEXT = ("Lean theorems over C03's faithful integer model of beyond's Date (Model/Date.lean: constructor with offset and EOP record looked up by UTC day, "
+              "_convert_to_scale, change_scale, + / - timedelta, comparisons, datetime readings) instantiated with the scale graph, _scale_* methods and IERS tables "
+              "regenerated from /repo on every run: a date is (instant, label, EOP record) and 'label-free' is proved for both the instant and the record — every "
+              "constructed date carries the record of its own UTC day and the record is a function of the instant (leap seconds included, by monotonicity of the "
+              "regenerated leap table); change_scale between UTC/TAI/TT/GPS keeps instant and record exactly (UT1: 1.5 us); date + t carries the record of ITS OWN UTC "
+              "day and is the same instant with the same record under every label of the operand; time since epoch, ordering/equality/hash, interpolation abscissa "
+              "and the UTC calendar reading handed to SGP4 / written to a TLE are functions of the instant. CCSDS: a string-level model of parse_date (strptime cascade "
+              "regenerated from commons.py) with the theorem that the TIME_SYSTEM reaches the constructed date on every format branch and from every reader call site; "
+              "write-then-read keeps the instant for epochs labelled like TIME_SYSTEM (for other labels the code moves the instant: kernel-checked witness, open finding). "
+              "The model is tied to the code by a correspondence on operation HISTORIES of the real Date (construct, +, -, change_scale, copy, DateRange iteration, "
+              "comparisons, parse_date) in three EOP environments (real IERS tables, all-zero, the constant mock of the test-suite), and by an oracle sweep of every "
+              "date-consuming public operation x 6 labels for the argument date x 6 labels for the epoch on the real API.")
+LEVEL_NOTE = ("the theorems cover the Date layer and the CCSDS epoch text layer; that each operation uses its dates only through those quantities is established by the "
+              "oracle sweep on the real API, not by proof; UT1/TDB conversions are within 1.5 us, so results are compared with |v| x 3 us tolerance; "
+              "hypotheses of the Date theorems: readings covered by the tables with no leap second between the label reading and its UTC reading (Clean), whole microseconds")
+TECHNIQUE = "Lean 4 proof over the integer model of Date regenerated from source; differential correspondence on operation histories; exhaustive label x label sweep of the real operations"
+TRUSTED = ["harness: relabelling is done with Date.change_scale on the real API; EOP tables from tests/data/pole",
+           "datetime.strptime restricted to %Y %m %d %j %H %M %S %f and literal separators is modelled by hand (Model/CcsdsDate.lean) and compared with the real parse_date on generated spellings"]
 ASSUMPTIONS = ["instants are at least 2 minutes away from a leap second (documented: leap seconds are not handled)",
-               "dates exact to the microsecond; UT1 and TDB offsets rounded to the microsecond as timedelta does"]
-NOT_COVERED = ["that every public operation consumes its date only through the modelled steps is checked by the label sweep on the real API, not proved"]
-OPEN = []
+               "dates exact to the microsecond; UT1 and TDB offsets rounded to the microsecond as timedelta does",
+               "CCSDS epoch texts are ASCII"]
+NOT_COVERED = ["that every public operation consumes its date only through the modelled quantities is checked by the label sweep on the real API, not proved",
+               "OMM and TDM writers (same epoch formatting as OPM / OEM) are swept by C13, not here"]
+OPEN = ["ccsds_epoch_roundtrip_partial: full statement (every epoch of a message reads back as the instant written, whatever its label) is false of the code — "
+        "open finding C04-ccsds-mixed-scale-epochs, proposed_fixes/C04-ccsds-mixed-scale-epochs.diff"]
 RULE = ("oracle: for each operation (SGP4, native SGP4, Kepler, J2, numerical, CW, Sun/Moon, frame conversion, ephemeris interpolation, event detection, "
-        "TLE writing, CCSDS OPM/OEM writing+reading) the result for the instant labelled UTC is compared with the result for the same instant in each of "
-        "the other 5 scales, for the argument date and for the object's epoch; non-trivial = label differs from UTC; distinct = (operation, instant, labels)")
+        "TLE writing, CCSDS OPM/OEM writing+reading in every legal spelling of the epochs, Date + / - timedelta, DateRange / Ephem iteration) the result for the instant "
+        "labelled UTC is compared with the result for the same instant in each of the other 5 scales, for the argument date and for the object's epoch; "
+        "non-trivial = label differs from UTC; distinct = (operation, instant, labels)")
 
 SCALES = ["UTC", "TAI", "TT", "GPS", "UT1", "TDB"]
 
 
 def extract(ctx):
+    """the configuration of the date model (scale graph, `_scale_*` methods, second EOP lookup, IERS tables: C03's
+    extractor) and the cascade of formats of the CCSDS `parse_date` with its call sites"""
+    from harness.props import C03
+    ch = list(C03.extract(ctx) or [])
+    ch += extract_ccsds_dates()
+    return ch
+
+
+# ---------------------------------------------------------------- extract: beyond/io/ccsds -> Generated/CcsdsDates.lean
+
+def _ccsds_dir():
+    return os.path.join(core.REPO, "beyond", "io", "ccsds")
+
+
+def _lean_str(s):
+    return '"' + s.replace("\\", "\\\\").replace('"', '\\"') + '"'
+
+
+def parse_date_branches(tree):
+    """the `Date.strptime(string, FMT, scale=scale)` calls of `parse_date` in the order the `try … except ValueError`
+    cascade tries them: [(format string, scale handed on?)].  RuntimeError when the function is not such a cascade."""
+    consts = {}
+    for st in tree.body:
+        if isinstance(st, ast.Assign) and len(st.targets) == 1 and isinstance(st.targets[0], ast.Name) and isinstance(st.value, ast.Constant) and isinstance(st.value.value, str):
+            consts[st.targets[0].id] = st.value.value
+    fn = next((f for f in tree.body if isinstance(f, ast.FunctionDef) and f.name == "parse_date"), None)
+    if fn is None:
+        raise RuntimeError("commons.py: no function parse_date")
+    params = [a.arg for a in fn.args.args]
+    if len(params) != 2:
+        raise RuntimeError("parse_date: expected the parameters (string, scale)")
+    p_str, p_scale = params
+
+    def branch(st):
+        if not isinstance(st, (ast.Assign, ast.Return)) or not isinstance(st.value, ast.Call):
+            raise RuntimeError(f"parse_date: line {st.lineno}: not a Date.strptime call")
+        c = st.value
+        if not (isinstance(c.func, ast.Attribute) and c.func.attr == "strptime" and isinstance(c.func.value, ast.Name) and c.func.value.id == "Date"):
+            raise RuntimeError(f"parse_date: line {st.lineno}: not a Date.strptime call")
+        if not (len(c.args) >= 2 and isinstance(c.args[0], ast.Name) and c.args[0].id == p_str):
+            raise RuntimeError(f"parse_date: line {st.lineno}: first argument is not the text")
+        f = c.args[1]
+        if isinstance(f, ast.Name) and f.id in consts:
+            fmt = consts[f.id]
+        elif isinstance(f, ast.Constant) and isinstance(f.value, str):
+            fmt = f.value
+        else:
+            raise RuntimeError(f"parse_date: line {st.lineno}: format is not a module constant")
+        cands = list(c.args[2:3]) + [k.value for k in c.keywords if k.arg == "scale"]
+        if any(k.arg is None for k in c.keywords) or len(cands) > 1:
+            raise RuntimeError(f"parse_date: line {st.lineno}: scale argument not understood")
+        if cands and not (isinstance(cands[0], ast.Name) and cands[0].id == p_scale):
+            raise RuntimeError(f"parse_date: line {st.lineno}: the scale handed on is not the parameter")
+        return fmt, bool(cands)
+
+    def walk(stmts):
+        stmts = [s_ for s_ in stmts if not (isinstance(s_, ast.Expr) and isinstance(s_.value, ast.Constant))]
+        if not stmts:
+            raise RuntimeError("parse_date: empty block")
+        head, rest = stmts[0], stmts[1:]
+        for r in rest:
+            if not (isinstance(r, ast.Return) and isinstance(r.value, ast.Name)):
+                raise RuntimeError(f"parse_date: line {r.lineno}: statement not understood")
+        if isinstance(head, ast.Try):
+            if head.orelse or head.finalbody or len(head.handlers) != 1 or len(head.body) != 1:
+                raise RuntimeError(f"parse_date: line {head.lineno}: try block not understood")
+            h = head.handlers[0]
+            if not (isinstance(h.type, ast.Name) and h.type.id == "ValueError"):
+                raise RuntimeError(f"parse_date: line {h.lineno}: handler is not `except ValueError`")
+            return [branch(head.body[0])] + walk(h.body)
+        return [branch(head)]
+
+    return walk(fn.body)
+
+
+def parse_date_call_sites():
+    """every call of parse_date in beyond/io/ccsds: (file:line, the scale argument is the message's TIME_SYSTEM?) — the
+    argument is either an expression reading TIME_SYSTEM or a local name every assignment of which, in the enclosing
+    function, reads TIME_SYSTEM"""
+    sites = []
+    for fn in sorted(os.listdir(_ccsds_dir())):
+        if not fn.endswith(".py"):
+            continue
+        src = open(os.path.join(_ccsds_dir(), fn)).read()
+        tree = ast.parse(src)
+        for func in [n for n in ast.walk(tree) if isinstance(n, ast.FunctionDef)]:
+            assigns = {}
+            for n in ast.walk(func):
+                if isinstance(n, ast.Assign):
+                    for t in n.targets:
+                        if isinstance(t, ast.Name):
+                            assigns.setdefault(t.id, []).append(ast.get_source_segment(src, n.value) or "")
+            for c in ast.walk(func):
+                if isinstance(c, ast.Call) and isinstance(c.func, ast.Name) and c.func.id == "parse_date":
+                    ok = False
+                    if len(c.args) == 2 and not c.keywords:
+                        a = c.args[1]
+                        seg = ast.get_source_segment(src, a) or ""
+                        if "TIME_SYSTEM" in seg:
+                            ok = True
+                        elif isinstance(a, ast.Name) and assigns.get(a.id) and all("TIME_SYSTEM" in v for v in assigns[a.id]):
+                            ok = True
+                    sites.append((f"{fn}:{func.name}:{c.lineno}", ok))
+    return sorted(set(sites))
+
+
+def extract_ccsds_dates():
+    tree = ast.parse(open(os.path.join(_ccsds_dir(), "commons.py")).read())
+    brs = parse_date_branches(tree)
+    sites = parse_date_call_sites()
+    if not sites:
+        raise RuntimeError("no call of parse_date found in beyond/io/ccsds")
+    txt = ["/- GENERATED by harness/props/C04.py from beyond/io/ccsds/*.py (AST) — do not edit. -/",
+           "namespace BeyondVerif.Generated",
+           "/-- `parse_date`: the `Date.strptime(string, FMT, scale=scale)` calls in the order the `try … except ValueError` cascade",
+           "tries them: (format, is the scale parameter handed on?) -/",
+           "def parseDateBranches : List (String × Bool) := [" + ", ".join(f"({_lean_str(f)}, {'true' if s_ else 'false'})" for f, s_ in brs) + "]",
+           "/-- every call of `parse_date` in beyond/io/ccsds: (file:function:line, the scale argument is the message's TIME_SYSTEM?) -/",
+           "def parseDateCallSites : List (String × Bool) := [" + ",\n  ".join(f"({_lean_str(w)}, {'true' if o else 'false'})" for w, o in sites) + "]",
+           "end BeyondVerif.Generated", ""]
+    if core.write_if_changed(os.path.join(core.LEAN, "BeyondVerif", "Generated", "CcsdsDates.lean"), "\n".join(txt)):
+        return ["Generated/CcsdsDates.lean"]
     return []
 
 
-# ---------------------------------------------------------------- correspondence: Date arithmetic vs the integer model
+# ---------------------------------------------------------------- correspondence: the real Date vs C03's integer model
 
-def correspondence(ctx):
-    """the integer-µs date layer used by the C04 theorems against the real Date: time differences and UTC fields"""
+UNIFORM = ("UTC", "TAI", "TT", "GPS")
+T0 = _dtm.datetime(1858, 11, 17)
+ENVS = ("real", "zero", "const")
+DAY_US = 86400 * 10**6
+MOCK_EOP = dict(x=-0.00951054166666622, y=0.31093590624999734, dpsi=-94.19544791666682, deps=-10.295645833333051,
+                dy=-0.10067361111115315, dx=-0.06829513888889051, lod=1.6242802083331438, ut1_utc=0.0175602, tai_utc=36.0)
+
+
+def real_env(name):
+    """context manager putting the real library in one of the three EOP environments of Drv/C04.lean:
+    real = IERS tables of tests/data/pole; zero = every lookup gives the all-zero record; const = the constant record the
+    library's own test-suite mocks EopDb.get with"""
+    import contextlib
+    from unittest import mock
     from harness import env
     env.use_real_eop()
+    if name == "real":
+        return contextlib.nullcontext()
+    from beyond.dates.eop import EopDb, Eop
+    rec = Eop(**(MOCK_EOP if name == "const" else {k: 0 for k in MOCK_EOP}))
+    return mock.patch.object(EopDb, "get", new=lambda mjd, dbname=None: rec)
+
+
+def minus_utc(scale, day, envname):
+    """label clock minus UTC clock in microseconds, good to 1 s (used only to place readings next to boundaries)"""
+    from harness.props import C03
+    tai = {"real": (C03.leap_at(day) or 0) // 10, "zero": 0, "const": 36 * 10**6}[envname]
+    return {"UTC": 0, "UT1": 0, "TAI": tai, "TT": tai + 32184000, "TDB": tai + 32184000, "GPS": tai - 19000000}[scale]
+
+
+def gen_reading(rng, scale, envname):
+    """a clock reading of `scale` (integer µs since the MJD origin), boundary-heavy: just after / before midnight of the
+    own scale, either side of UTC midnight (the EOP tables are indexed by UTC day), either side of TAI midnight (where the
+    stored `_d` / `_s` wrap), leap-second days, exact midnights"""
+    from harness.props import C03
+    _, _, first, last = C03.tables()
+    if envname == "real":
+        day = rng.randint(first + 2, last - 2)
+        if rng.random() < 0.15:
+            ld = rng.choice([d for d in C03.leap_days() if d > first + 3])
+            day = ld + rng.choice([-1, 0, 0, 1])
+    else:
+        day = rng.randint(45000, 60000)
+    off = minus_utc(scale, day, envname)
+    tai_off = off - minus_utc("TAI", day, envname)           # label − TAI
+    r = rng.random()
+    if r < 0.20:
+        tod = rng.randrange(0, 75 * 10**6)
+    elif r < 0.35:
+        tod = DAY_US - 1 - rng.randrange(0, 75 * 10**6)
+    elif r < 0.55:
+        tod = (off + rng.randint(-75 * 10**6, 75 * 10**6)) % DAY_US
+    elif r < 0.70:
+        tod = (tai_off + rng.randint(-2 * 10**6, 2 * 10**6)) % DAY_US
+    elif r < 0.78:
+        tod = rng.choice([0, 1, DAY_US - 1, off % DAY_US, (off - 1) % DAY_US, tai_off % DAY_US, 10**6, DAY_US // 2])
+    else:
+        tod = rng.randrange(DAY_US)
+    return day * DAY_US + tod
+
+
+def gen_delta(rng, tod, envname):
+    """a timedelta (µs): small, landing elsewhere in the same own-scale day, landing on a midnight, whole days, long"""
+    r = rng.random()
+    if r < 0.25:
+        return rng.randint(-150 * 10**6, 150 * 10**6)
+    if r < 0.42:
+        return rng.randrange(DAY_US) - tod                     # same own-scale day, any side of UTC midnight
+    if r < 0.52:
+        return rng.choice([-tod, -tod - 1, DAY_US - tod, DAY_US - tod - 1, -tod + 1])
+    if r < 0.62:
+        return rng.choice([0, 1, -1, 10**6, -10**6, DAY_US, -DAY_US])
+    if r < 0.85:
+        return rng.randint(-3 * DAY_US, 3 * DAY_US)
+    return rng.randint(-200 * DAY_US, 200 * DAY_US)
+
+
+def make_date(Date, dt, scale, form):
+    """the constructor forms of Date for one clock reading: datetime, calendar fields, (day, seconds), Date.strptime"""
+    if form == 0:
+        return Date(dt, scale=scale)
+    if form == 1:
+        return Date(dt.year, dt.month, dt.day, dt.hour, dt.minute, dt.second, dt.microsecond, scale=scale)
+    if form == 2:
+        us = (dt - T0)
+        return Date(us.days, us.seconds + us.microseconds / 1e6, scale=scale)
+    return Date.strptime(dt.strftime("%Y-%m-%dT%H:%M:%S.%f"), "%Y-%m-%dT%H:%M:%S.%f", scale=scale)
+
+
+def show(x):
+    from harness.props import C03
+    return C03.real_show(x)[3:]
+
+
+def _real_err(e):
+    from beyond.errors import EopError, UnknownScaleError, DateError
+    if isinstance(e, (KeyError, EopError)):
+        return "err missing-eop"
+    if isinstance(e, UnknownScaleError):
+        return "err unknown-scale"
+    if isinstance(e, DateError):
+        return "err unknown-conversion"
+    raise e
+
+
+def same_show(real, model, exact):
+    from harness.props import C03
+    if real == model:
+        return True
+    if real.startswith("err") or model.startswith("err"):
+        return False
+    return C03.same_reply("ok " + real, "ok " + model, exact)
+
+
+def correspondence(ctx):
+    """the real Date against the compiled model of Model/Date.lean (configuration regenerated from /repo), in three EOP
+    environments, on operation HISTORIES: construct, then + / − timedelta, change_scale, copy-construct, in any order,
+    every intermediate date compared in full (instant, own clock reading, offset, EOP record); DateRange iteration on full
+    dates; differences / comparisons / hash; the CCSDS `parse_date` against Model/CcsdsDate.lean"""
+    from harness.props import C03
+    with real_env("real"):
+        pass
     from beyond.dates import Date, timedelta
     out = Outcome()
     rng = ctx.rng
-    reqs, meta = [], []
-    for _ in range(ctx.n(400, 5000)):
-        mjd = rng.randint(47000, 57500)
-        us = rng.randrange(130 * 10**6, 86400 * 10**6 - 130 * 10**6)
-        l1, l2 = rng.choice(SCALES[:4]), rng.choice(SCALES[:4])
-        d_utc = Date(mjd, 0.0) + timedelta(microseconds=us)
-        a = d_utc.change_scale(l1)
-        dt_us = rng.randrange(-30 * 86400 * 10**6, 30 * 86400 * 10**6)
-        b = (d_utc + timedelta(microseconds=dt_us)).change_scale(l2)
-        # offsets of the two labels w.r.t. TAI in µs at those dates (the model takes them as inputs: they are C03's subject)
-        oa = round(a._offset * 1e6)
-        ob = round(b._offset * 1e6)
-        # readings in own scale, integer µs since MJD 0
-        ra = a.d * 86400 * 10**6 + round(a.s * 1e6)
-        rb = b.d * 86400 * 10**6 + round(b.s * 1e6)
-        real = round((b - a).total_seconds() * 1e6)
-        reqs.append(f"c04.delta {ra} {oa} {rb} {ob}")
-        meta.append((real, {"a": str(a), "b": str(b)}))
-        out.count(key=reqs[-1], nontrivial=l1 != l2, kind=f"delta-{l1}-{l2}")
-    # EOP day: the record attached to a date is that of int(UTC mjd), whatever the label (dates away from leap seconds)
-    for _ in range(ctx.n(200, 2000)):
-        mjd = rng.randint(47000, 57400)
-        us = rng.choice([rng.randrange(0, 86400 * 10**6), rng.randrange(86400 * 10**6 - 70 * 10**6, 86400 * 10**6), rng.randrange(0, 70 * 10**6)])
-        lab = rng.choice(SCALES[1:4])
-        d_utc = Date(mjd, 0.0) + timedelta(microseconds=us)
-        a = d_utc.change_scale(lab)
-        real_day = next((k for k in range(mjd - 1, mjd + 3) if (a.eop.ut1_utc, a.eop.x) == (Date(k, 43200.0).eop.ut1_utc, Date(k, 43200.0).eop.x)), None)
-        ra = a.d * 86400 * 10**6 + round(a.s * 1e6)
-        reqs.append(f"c04.eopday {ra} {round(a._offset * 1e6)} {round(d_utc._offset * 1e6)}")
-        meta.append((real_day, {"date": str(a)}))
-        out.count(key=reqs[-1], kind=f"eopday-{lab}", window=us < 70 * 10**6 or us > 86400 * 10**6 - 70 * 10**6)
-    replies = core.Driver().run(reqs)
-    for req, (real, inp), rep in zip(reqs, meta, replies):
-        if rep != str(real):
-            out.fail("c04-" + req.split()[0].split(".")[1], "date-handling step differs between Date and the integer model: " + req.split()[0], inp, observed=real, expected=rep)
-        out.sample({"request": req, "impl_us": real, "model": rep}, limit=3)
+    _, _, first, last = C03.tables()
+    lines, reals, metas = [], [], []
+
+    # ---- histories
+    n_hist = ctx.n(260, 3000)
+    for envname in ENVS:
+        with real_env(envname):
+            for _ in range(n_hist if envname == "real" else n_hist // 4):
+                nonuni = rng.random() < 0.15
+                sc = rng.choice(["UT1", "TDB"]) if nonuni and rng.random() < 0.5 else rng.choice(UNIFORM)
+                us = gen_reading(rng, sc, envname)
+                ops, rep = [], []
+                exact = sc in UNIFORM
+                try:
+                    x = make_date(Date, C03.dt_of(us), sc, rng.randrange(4))
+                    rep.append(show(x))
+                    nops = rng.choice([1, 1, 2, 3, 5]) if exact else 1
+                    for k in range(nops):
+                        r = rng.random()
+                        tod = round(x.s * 1e6)
+                        if r < 0.55:
+                            t = gen_delta(rng, tod, envname)
+                            ops.append(f"a{t}")
+                            x = x + timedelta(microseconds=t)
+                        elif r < 0.70:
+                            t = gen_delta(rng, tod, envname)
+                            ops.append(f"s{-t}")
+                            x = x - timedelta(microseconds=-t)
+                        elif r < 0.92:
+                            last_op = k == nops - 1
+                            to = rng.choice(["UT1", "TDB"]) if (nonuni and last_op and exact) else rng.choice(UNIFORM)
+                            if to not in UNIFORM:
+                                exact = False
+                            ops.append(f"c{to}")
+                            x = x.change_scale(to)
+                        elif r < 0.97:
+                            ops.append("n")
+                            x = Date(x)
+                        else:
+                            ops.append("p")          # a copy made without the constructor: the same date
+                            x = pickle.loads(pickle.dumps(x)) if rng.random() < 0.5 else copy.deepcopy(x)
+                        rep.append(show(x))
+                except Exception as e:  # noqa: BLE001
+                    rep.append(_real_err(e))
+                lines.append(f"c04.chain {envname} {sc} {us} " + " ".join(ops))
+                reals.append(" | ".join(rep))
+                metas.append(("history", exact, envname))
+                out.count(key=lines[-1], kind="history", env=envname, exact=exact, ops=len(ops))
+
+    # ---- DateRange on full dates (start + timedelta, step of either sign)
+    for envname in ("real", "const"):
+        with real_env(envname):
+            for _ in range(ctx.n(60, 600) if envname == "real" else ctx.n(15, 150)):
+                sc = rng.choice(UNIFORM)
+                us = gen_reading(rng, sc, envname)
+                step = rng.choice([1, -1]) * rng.choice([10**6, 10 * 10**6, 37 * 10**6, 600 * 10**6, rng.randint(1, 10**8), DAY_US, rng.randint(1, 3 * DAY_US)])
+                n = rng.randint(0, 30)
+                dur = n * step + (0 if rng.random() < 0.5 else (step // 3))
+                if rng.random() < 0.06:
+                    dur = -dur if dur else -step
+                if rng.random() < 0.03:
+                    step = 0
+                incl = rng.random() < 0.5
+                try:
+                    start = Date(C03.dt_of(us), scale=sc)
+                    rg = Date.range(start, timedelta(microseconds=dur), timedelta(microseconds=step), inclusive=incl)
+                    items = list(itertools.islice(iter(rg), 80))       # a broken `+` may never reach the stop date
+                    real = " | ".join(["ok"] + [show(d) for d in items]) if len(items) < 80 else "err runaway-iteration"
+                except ValueError as e:
+                    real = "err null-step" if "Null" in str(e) else "err incoherent"
+                lines.append(f"c04.range {envname} {sc} {us} {dur} {step} {int(incl)}")
+                reals.append(real)
+                metas.append(("daterange", True, envname))
+                out.count(key=lines[-1], kind="daterange", env=envname, step="0" if step == 0 else "+" if step > 0 else "-")
+
+    # ---- difference, comparisons, hash of two dates under any two labels
+    for envname in ENVS:
+        with real_env(envname):
+            for _ in range(ctx.n(100, 1500) if envname == "real" else ctx.n(30, 300)):
+                sa, sb = rng.choice(UNIFORM), rng.choice(UNIFORM)
+                ua = gen_reading(rng, sa, envname)
+                day = ua // DAY_US
+                delta = rng.choice([0, 0, 1, -1, 10**6, -10**6, rng.randint(-10**8, 10**8), rng.randint(-30 * DAY_US, 30 * DAY_US)])
+                ub = ua - minus_utc(sa, day, envname) + minus_utc(sb, day, envname) + delta
+                x, y = Date(C03.dt_of(ua), scale=sa), Date(C03.dt_of(ub), scale=sb)
+                lines.append(f"c04.cmp {envname} {sa} {ua} {sb} {ub}")
+                reals.append("ok %d %d %d %d %d %d %d" % (C03.td_us(y - x), y < x, y <= x, y == x, y >= x, y > x, hash(y) == hash(x)))
+                metas.append(("compare", True, envname))
+                out.count(key=lines[-1], nontrivial=sa != sb, kind="compare", env=envname, pair=f"{sa}-{sb}")
+
+    # ---- parse_date: every spelling, every TIME_SYSTEM
+    with real_env("real"):
+        from beyond.io.ccsds.commons import parse_date
+        for _ in range(ctx.n(250, 3000)):
+            text, kind = gen_epoch_text(rng, first, last)
+            sc = rng.choice(SCALES)
+            try:
+                real = show(parse_date(text, sc))
+            except ValueError:
+                real = "err value-error"
+            except Exception as e:  # noqa: BLE001
+                real = _real_err(e)
+            lines.append(f"c04.pd real {sc} " + (",".join(str(ord(c)) for c in text) or "-"))
+            reals.append(real)
+            metas.append(("parse-date", sc in UNIFORM, "real"))
+            out.count(key=lines[-1], kind="parse-date", spelling=kind, reply=real.split()[0] if real.startswith("err") else "ok")
+
+    replies = core.Driver().run(lines)
+    for line, real, (kind, exact, envname), rep in zip(lines, reals, metas, replies):
+        if kind == "history":
+            r_, m_ = real.split(" | "), rep.split(" | ")
+            ok = len(r_) == len(m_) and all(same_show(a_, b_, exact) for a_, b_ in zip(r_, m_))
+        elif kind == "parse-date":
+            ok = same_show(real, rep, exact)
+        else:
+            ok = real == rep
+        if not ok:
+            out.fail("c04-" + kind, f"{kind}: the real Date and the model of Model/Date.lean differ (EOP environment: {envname})", line, observed=real[:600], expected=rep[:600])
+        out.sample({"request": line[:200], "model": rep[:200]}, limit=4)
     return out
+
+
+def gen_epoch_text(rng, first, last):
+    """an epoch as a CCSDS message may spell it (and near misses): calendar or day-of-year, with or without fraction of
+    second, padded or not — returns (text, kind)"""
+    import datetime as _dt
+    day = rng.randint(first + 2, last - 2)
+    base = _dt.datetime(1858, 11, 17) + _dt.timedelta(days=day, seconds=rng.randrange(86400), microseconds=rng.choice([0, 0, 500000, rng.randrange(10**6)]))
+    r = rng.random()
+    if r < 0.08:
+        base = base.replace(month=12, day=31) if rng.random() < 0.5 else base.replace(month=2, day=28)
+    doy = rng.random() < 0.4
+    nd = rng.choice([None, None, 1, 3, 6, 6, 6, 7])
+    date = f"{base.year:04d}-{base.timetuple().tm_yday:03d}" if doy else f"{base.year:04d}-{base.month:02d}-{base.day:02d}"
+    kind = ("doy" if doy else "cal") + ("-nofrac" if nd is None else f"-frac{nd}")
+    frac = "" if nd is None else "." + (f"{base.microsecond:06d}" + "0")[:nd]
+    hms = f"{base.hour:02d}:{base.minute:02d}:{base.second:02d}"
+    sep = "T"
+    r = rng.random()
+    if r < 0.30:
+        v = rng.randrange(14)
+        kind += f"-variant{v}"
+        if v == 0:
+            sep = "t"
+        elif v == 1:
+            sep = " "
+        elif v == 2:
+            date = (f"{base.year}-{base.timetuple().tm_yday}" if doy else f"{base.year}-{base.month}-{base.day}")
+            hms = f"{base.hour}:{base.minute}:{base.second}"
+        elif v == 3:
+            date = f"{base.year:04d}-13-01" if not doy else f"{base.year:04d}-367"
+        elif v == 4:
+            date = f"{base.year:04d}-{rng.choice([2, 4, 6, 9, 11]):02d}-31" if not doy else f"{base.year:04d}-366"
+        elif v == 5:
+            date = f"{base.year:04d}-02-29" if not doy else f"{base.year:04d}-000"
+        elif v == 6:
+            hms = f"{base.hour:02d}:{base.minute:02d}:{rng.choice([60, 61, 62])}"
+        elif v == 7:
+            hms = f"24:{base.minute:02d}:{base.second:02d}"
+        elif v == 8:
+            frac += "Z"
+        elif v == 9:
+            date = " " + date
+        elif v == 10:
+            return "", "empty"
+        elif v == 11:
+            date = f"{base.year % 100:02d}" + date[4:]
+        elif v == 12:
+            hms = f"{base.hour:02d}:{base.minute:02d}"
+        else:
+            date = date.replace("-", "/")
+    return date + sep + hms + frac, kind
 
 
 # ---------------------------------------------------------------- oracle on the real API
@@ -224,6 +633,10 @@ def oracle(ctx, widened):
     ccsds(out, rng, big)
     bodies(out, rng, cmp, big)
     eop_lookup(out, rng, big)
+    date_arith(out, rng, big)
+    iteration(out, rng, big)
+    ccsds_spellings(out, rng, big)
+    ccsds_mixed(out, rng, big)
     out.sample({"operation": "Sgp4.propagate", "instant": "tle0+…s", "labels": "6 x 6", "compared_with": "UTC/UTC baseline"})
     return out
 
@@ -397,3 +810,298 @@ def eop_lookup(out, rng, big):
                 if (e.eop.ut1_utc, e.eop.x, e.eop.y) != (d.eop.ut1_utc, d.eop.x, d.eop.y):
                     out.fail("eop-day-by-label-scale" if label_day_differs(e) else "eop-lookup:label-dependent", "EOP record (UT1-UTC, pole) is chosen by the day number of the label scale: within TAI-UTC (resp. TT-UTC, GPS-UTC) seconds before UTC midnight a relabelled date gets the next day's record",
                              {"utc": str(d), "label": ld}, observed=[e.eop.ut1_utc, e.eop.x, e.eop.y], expected=[d.eop.ut1_utc, d.eop.x, d.eop.y])
+
+
+# ---------------------------------------------------------------- date + timedelta: the result depends on the instant only
+
+def eop_tuple(d):
+    e = d.eop
+    return (e.x, e.y, e.dx, e.dy, e.deps, e.dpsi, e.lod, e.ut1_utc, e.tai_utc)
+
+
+def _itrf(date):
+    """a fixed inertial state dated `date`, expressed in the Earth-fixed frame (reads date.eop: UT1-UTC, pole, LOD)"""
+    from beyond.orbits import StateVector
+    sv = StateVector([7000e3, 100e3, -2000e3, 300.0, 7400.0, 1000.0], date, "cartesian", "EME2000")
+    return vec(sv.copy(frame="ITRF"))[:3]
+
+
+def date_arith(out, rng, big):
+    """theorems add_carries_record_of_utc_day / add_function_of_instant / add_after_relabel on the real Date with the
+    real EOP tables: `date + t` (and `date - t`, `Date(date)`) is compared with the same clock reading constructed
+    directly in the same label, and with the same instant handled under the UTC label — instant, full EOP record, UTC
+    calendar reading, Earth-fixed position of a state dated with the result.  Boundary-heavy: operands just after midnight
+    of their own scale (still the previous UTC day), either side of UTC and TAI midnight, leap-second days, sums that stay
+    in the own-scale day but cross UTC midnight and vice versa, negative timedeltas"""
+    import numpy as np
+    from harness.props import C03
+    from beyond.dates import Date, timedelta
+    with real_env("real"):
+        _, _, first, last = C03.tables()
+        leap = [d for d in C03.leap_days() if d > first + 3]
+        days = [rng.randint(first + 2, last - 2) for _ in range(6 if big else 2)] + [leap[-1], rng.choice(leap)] + ([leap[-2], leap[-1] - 1] if big else [])
+        for day in days:
+            for lab in SCALES:
+                off = minus_utc(lab, day, "real")
+                tai_off = off - minus_utc("TAI", day, "real")
+                tods = [0, 10 * 10**6, rng.randrange(0, 70 * 10**6), DAY_US - rng.randrange(1, 70 * 10**6), (off - 5 * 10**6) % DAY_US, (off + 5 * 10**6) % DAY_US,
+                        (tai_off - 500000 + rng.randrange(10**6)) % DAY_US, rng.randrange(DAY_US)]
+                if not big:
+                    tods = tods[:2] + rng.sample(tods[2:], 3)
+                for tod in tods:
+                    us = day * DAY_US + tod
+                    cands = [60 * 10**6, 600 * 10**6, -60 * 10**6, -tod - 10**6, DAY_US - tod - 1, rng.randrange(DAY_US) - tod, 3 * 3600 * 10**6 + 1, DAY_US, -DAY_US, rng.randint(-10 * DAY_US, 10 * DAY_US)]
+                    for t in (cands if big else cands[:2] + rng.sample(cands[2:], 3)):
+                        _check_add(out, np, C03, Date, timedelta, lab, us, t)
+
+
+def _check_add(out, np, C03, Date, timedelta, lab, us, t):
+    inp = {"label": lab, "reading_us": us, "reading": str(C03.dt_of(us)), "timedelta_us": t}
+    uniform = lab in UNIFORM
+    a = Date(C03.dt_of(us), scale=lab)
+    fam = f"date-add:result-depends-on-history:{lab}"
+    for op, r in (("add", lambda: a + timedelta(microseconds=t)), ("sub", lambda: a - timedelta(microseconds=-t)), ("add-of-copy", lambda: Date(a) + timedelta(microseconds=t))):
+        out.count(key=("date-" + op, lab, us, t), nontrivial=lab != "UTC", op="date-" + op, label=lab)
+        try:
+            r = r()
+            direct = Date(C03.dt_of(us + t), scale=lab)
+        except Exception as e:  # noqa: BLE001
+            out.fail(fam, f"Date {op}: raises", inp, observed=repr(e), expected="a date")
+            return
+        # (1) same label: the sum is the date constructed at the moved clock reading — same instant, same record
+        di = abs(C03.td_us(r - direct))
+        if di > (0 if uniform else 1) or eop_tuple(r) != eop_tuple(direct) or abs(r._offset - direct._offset) > 1e-9 or r.scale.name != lab:
+            out.fail(fam, f"Date {op}: `date {'+' if op != 'sub' else '-'} timedelta` is not the date constructed directly at the same clock reading in the same scale (instant / EOP record / offset differ)",
+                     {**inp, "op": op}, observed={"date": str(r), "instant_diff_us": di, "eop": eop_tuple(r), "offset": r._offset}, expected={"date": str(direct), "eop": eop_tuple(direct), "offset": direct._offset})
+            return
+        # reading the sum twice (cached properties) gives what a fresh object gives
+        tol_us = 0 if uniform else 2        # UT1 / TDB: `_s` and `_offset` are rounded separately to the microsecond
+        if abs(C03.td_us(r.datetime - direct.datetime)) > tol_us or abs((r.d - direct.d) * 86400.0 + r.s - direct.s) > 1e-6 + tol_us * 1e-6:
+            out.fail(fam, f"Date {op}: clock reading of the sum differs from that of the directly constructed date", {**inp, "op": op}, observed=[str(r.datetime), r.d, r.s], expected=[str(direct.datetime), direct.d, direct.s])
+            return
+    if not uniform:
+        return
+    # (2) the same instant under the UTC label, the same timedelta: same instant, same record, same UTC reading, same Earth-fixed position
+    au = a.change_scale("UTC")
+    u = au + timedelta(microseconds=t)
+    r = a + timedelta(microseconds=t)
+    if a.eop.tai_utc != r.eop.tai_utc or a.eop.tai_utc != u.eop.tai_utc or au.eop.tai_utc != a.eop.tai_utc:
+        return        # a leap second between operand and sum: t seconds of UTC clock are not t seconds of TAI (documented: not handled)
+    out.count(key=("date-add-vs-utc", lab, us, t), nontrivial=lab != "UTC", op="date-add-vs-utc", label=lab)
+    ru = r.change_scale("UTC")
+    obs = {"sum": str(r), "sum_as_utc": str(ru), "eop": eop_tuple(r)}
+    exp = {"utc_sum": str(u), "eop": eop_tuple(u)}
+    if C03.td_us(r - u) != 0 or eop_tuple(r) != eop_tuple(u) or ru.datetime != u.datetime or eop_tuple(ru) != eop_tuple(u):
+        out.fail(fam, "the same instant + the same timedelta under another label: instant / EOP record / UTC calendar reading of the sum depend on the label of the operand",
+                 {**inp, "op": "add-vs-utc-label"}, observed=obs, expected=exp)
+        return
+    pr, pu = _itrf(r), _itrf(u)
+    if not np.all(np.abs(pr - pu) <= 0.05):
+        out.fail(fam, "Earth-fixed position of a state dated `date + t` depends on the label of the operand", {**inp, "op": "itrf"}, observed=[float(x) for x in pr], expected=[float(x) for x in pu])
+
+
+def iteration(out, rng, big):
+    """DateRange / Ephem / propagator iteration started from a non-UTC label at the midnight of that label, stepping
+    across UTC midnight: every date yielded carries the record of its instant, every point converts to the Earth-fixed
+    frame as the UTC-labelled run does"""
+    import numpy as np
+    from harness.props import C03
+    from beyond.dates import Date, timedelta
+    from beyond.io.tle import Tle
+    with real_env("real"):
+        orb0 = Tle(TLES[2]).orbit()
+        d0 = int(orb0.date.mjd)
+        for lab in ("TAI", "TT", "GPS"):
+            for day in ([d0 + 1, d0 + rng.randint(2, 9)] if big else [d0 + rng.randint(1, 5)]):
+                off = minus_utc(lab, day, "real")
+                for tod, step in ((0, 10), (max(off, 0) // 10**6 * 10**6 + 3 * 10**6, -10), (rng.randrange(0, 30) * 10**6, 7)):
+                    start = Date(C03.dt_of(day * DAY_US + tod), scale=lab)
+                    n = 9
+                    for kind in ("daterange", "ephem"):
+                        inp = {"label": lab, "start": str(start), "step_s": step, "n": n, "kind": kind}
+                        fam = f"iteration:{kind}:label-dependent:{lab}"
+                        if kind == "daterange":
+                            got = list(itertools.islice(iter(Date.range(start, timedelta(seconds=step * n), timedelta(seconds=step))), 4 * n))
+                            ref = list(itertools.islice(iter(Date.range(start.change_scale("UTC"), timedelta(seconds=step * n), timedelta(seconds=step))), 4 * n))
+                            bad = len(got) != len(ref)
+                            for g, r in zip(got, ref):
+                                out.count(key=("iter", kind, lab, str(start), step, str(r)), op="iteration-" + kind, label=lab)
+                                if C03.td_us(g - r) != 0 or eop_tuple(g) != eop_tuple(r) or g.change_scale("UTC").datetime != r.datetime:
+                                    bad = True
+                                    inp["at"] = str(g)
+                                    break
+                            if bad:
+                                out.fail(fam, "dates yielded by Date.range started from this label do not carry the instant / EOP record of the UTC-labelled run", inp,
+                                         observed=[(str(g), g.eop.ut1_utc) for g in got][:10], expected=[(str(r), r.eop.ut1_utc) for r in ref][:10])
+                        elif step > 0:
+                            got = list(itertools.islice(orb0.iter(start=start, stop=timedelta(seconds=step * n), step=timedelta(seconds=step)), 4 * n))
+                            ref = list(itertools.islice(orb0.iter(start=start.change_scale("UTC"), stop=timedelta(seconds=step * n), step=timedelta(seconds=step)), 4 * n))
+                            bad = len(got) != len(ref)
+                            obs = exp = None
+                            for g, r in zip(got, ref):
+                                out.count(key=("iter", kind, lab, str(start), step, str(r.date)), op="iteration-" + kind, label=lab)
+                                pg, pr = vec(g.copy(form="cartesian", frame="ITRF"))[:3], vec(r.copy(form="cartesian", frame="ITRF"))[:3]
+                                if C03.td_us(g.date - r.date) != 0 or not np.all(np.abs(pg - pr) <= 0.05):
+                                    bad, obs, exp = True, [float(x) for x in pg], [float(x) for x in pr]
+                                    inp["at"] = str(g.date)
+                                    break
+                            if bad:
+                                out.fail(fam, "Earth-fixed positions of the points of an ephemeris started from this label differ from the UTC-labelled run", inp, observed=obs, expected=exp)
+
+
+# ---------------------------------------------------------------- CCSDS: every legal spelling of an epoch, every TIME_SYSTEM
+
+EPOCH_RE = r"(\d{4})-(\d{2})-(\d{2})T(\d{2}):(\d{2}):(\d{2})\.(\d{6})"
+
+
+def respell(text, how):
+    """the same message with every epoch (but the header's CREATION_DATE) spelled another way the Blue Books allow:
+    full = 6 decimals (what beyond writes), trim = trailing zeros of the fraction dropped, nofrac = no decimal fraction
+    (whole seconds only), doy = day-of-year with fraction, doy-trim"""
+    import re
+    import datetime as _dt
+
+    def sub(m):
+        y, mo, d, h, mi, s_, f = m.groups()
+        date = f"{y}-{mo}-{d}"
+        if how.startswith("doy"):
+            date = f"{y}-{_dt.date(int(y), int(mo), int(d)).timetuple().tm_yday:03d}"
+        frac = "." + f
+        if how in ("trim", "doy-trim"):
+            frac = "." + (f.rstrip("0") or "0")
+        if how == "nofrac":
+            if int(f):
+                raise ValueError("fraction of second is not zero")
+            frac = ""
+        return f"{date}T{h}:{mi}:{s_}{frac}"
+    return "\n".join(line if "CREATION_DATE" in line else re.sub(EPOCH_RE, sub, line) for line in text.split("\n"))
+
+
+SPELLINGS = ("full", "trim", "nofrac", "doy", "doy-trim")
+
+
+def ccsds_spellings(out, rng, big):
+    """theorems parseDate_scale_reaches_date / parseDate_reading_label_free on the real readers: one OPM (state epoch,
+    two maneuvers) and one OEM (points, a covariance epoch) are written with every TIME_SYSTEM, every epoch respelled in
+    each notation the Blue Books allow, and read back: instants of all epochs and the interpolated position at a fixed
+    instant are compared with the UTC original"""
+    import numpy as np
+    from beyond.dates import Date, timedelta
+    from beyond.io.tle import Tle
+    from beyond.io import ccsds as io_ccsds
+    from beyond.orbits import Ephem
+    from beyond.orbits.cov import Cov
+    from beyond.orbits.man import ImpulsiveMan, ContinuousMan
+    with real_env("real"):
+        orb0 = Tle(TLES[2]).orbit()
+        t0 = Date(int(orb0.date.mjd) + 2, 50400.0)      # whole seconds: every spelling is legal
+        sv0 = orb0.propagate(t0).copy(form="cartesian", frame="EME2000")
+        m1, m2 = t0 + timedelta(seconds=3600), t0 + timedelta(seconds=7200)
+        pts = [orb0.propagate(t0 + timedelta(seconds=60 * i)).copy(form="cartesian", frame="EME2000") for i in range(12)]
+        ref_eph = Ephem([p.copy() for p in pts])
+        when = t0 + timedelta(seconds=330.5)
+        ref_pos = vec(ref_eph.interpolate(when))[:3]
+        omm0 = orb0.copy()
+        omm0.date = Date(int(orb0.date.mjd), 3600.0 * rng.randrange(24))      # mean elements dated at a whole second
+        for lab in SCALES:
+            sv = relabel(sv0, lab)
+            sv.maneuvers = [ImpulsiveMan(m1.change_scale(lab), [1.0, 0.0, 0.0]), ContinuousMan(m2.change_scale(lab), timedelta(seconds=60), dv=[0.0, 1.0, 0.0], date_pos="start")]
+            lp = []
+            for i, p in enumerate(pts):
+                q = relabel(p, lab)
+                if i == 2:
+                    q.cov = Cov(q, np.eye(6) * 4.0, "EME2000")
+                lp.append(q)
+            eph = Ephem(lp)
+            slack = 3e-6 if lab in ("UT1", "TDB") else 0.0
+            for fmt in (("kvn", "xml") if big or lab in ("TAI", "TT") else ("kvn",)):
+                texts = {"opm": io_ccsds.dumps(sv, fmt=fmt), "oem": io_ccsds.dumps(eph, fmt=fmt), "omm": io_ccsds.dumps(relabel(omm0, lab), fmt=fmt)}
+                for how in SPELLINGS:
+                    for kind, text in texts.items():
+                        inp = {"message": kind, "fmt": fmt, "TIME_SYSTEM": lab, "spelling": how}
+                        fam = f"ccsds-read:{kind}:{how}:label-dependent"
+                        out.count(key=("ccsds-read", kind, fmt, lab, how), nontrivial=lab != "UTC" or how != "full", op=f"ccsds-read-{kind}", label=lab, spelling=how)
+                        if lab in ("UT1", "TDB") and how == "nofrac":
+                            continue          # the clock reading of a whole UTC second in UT1 / TDB has a fraction
+                        try:
+                            txt = respell(text, how)
+                        except ValueError:
+                            continue
+                        inp["first_epoch"] = next((ln.strip() for ln in txt.split("\n") if "EPOCH" in ln or (kind == "oem" and ln[:4].isdigit())), "")
+                        try:
+                            back = io_ccsds.loads(txt)
+                        except Exception as e:  # noqa: BLE001
+                            # a notation the readers do not know at all (whatever the TIME_SYSTEM) is not a label effect
+                            try:
+                                io_ccsds.loads(respell(io_ccsds.dumps({"opm": sv0, "oem": ref_eph, "omm": omm0}[kind], fmt=fmt), how))
+                                utc_ok = True
+                            except Exception:  # noqa: BLE001
+                                utc_ok = False
+                            if utc_ok:
+                                out.fail(fam, f"{kind.upper()} with epochs in this notation is rejected for TIME_SYSTEM = {lab} but read for UTC", inp, observed=repr(e), expected="the same message")
+                            else:
+                                out.tally(f"notation-not-supported={kind}:{how}")
+                            continue
+                        if kind == "omm":
+                            if abs((back.date - omm0.date).total_seconds()) > slack + 1e-9:
+                                out.fail(fam, "OMM: the epoch written in this notation is read as another instant", inp, observed=str(back.date), expected=str(omm0.date.change_scale(lab)))
+                        elif kind == "opm":
+                            got = [back.date] + [getattr(m, "date", None) or m.start for m in back.maneuvers]
+                            exp = [t0, m1, m2]
+                            ok = len(got) == 3 and all(abs((g - e).total_seconds()) <= slack + 1e-9 for g, e in zip(got, exp))
+                            if not ok:
+                                out.fail(fam, "OPM: epochs (state, maneuvers) written in this notation are read as other instants than the same message in the notation beyond writes / in UTC", inp,
+                                         observed=[str(g) for g in got], expected=[str(e.change_scale(lab)) for e in exp])
+                        else:
+                            got = [p.date for p in back]
+                            ok = len(got) == len(pts) and all(abs((g - p.date).total_seconds()) <= slack + 1e-9 for g, p in zip(got, pts)) and back[2].cov is not None
+                            pos = vec(back.interpolate(when))[:3] if ok else None
+                            if not ok or not np.all(np.abs(pos - ref_pos) <= 8000.0 * slack + 2e-3):
+                                out.fail(fam, "OEM: points written in this notation are read as other instants (interpolated position at a fixed instant differs)", inp,
+                                         observed={"start": str(back.start), "pos": None if pos is None else [float(x) for x in pos]}, expected={"start": str(t0.change_scale(lab)), "pos": [float(x) for x in ref_pos]})
+
+
+def ccsds_mixed(out, rng, big):
+    """one message, epochs under different labels: an OPM whose maneuver dates carry another label than the state's date,
+    an OEM whose points carry different labels.  dumps then loads must give the instants back"""
+    from beyond.dates import Date, timedelta
+    from beyond.io.tle import Tle
+    from beyond.io import ccsds as io_ccsds
+    from beyond.orbits import Ephem
+    from beyond.orbits.man import ImpulsiveMan, ContinuousMan
+    with real_env("real"):
+        orb0 = Tle(TLES[2]).orbit()
+        t0 = Date(int(orb0.date.mjd) + 2, 50400.0) + timedelta(microseconds=rng.randrange(10**6))
+        sv0 = orb0.propagate(t0).copy(form="cartesian", frame="EME2000")
+        m1, m2 = t0 + timedelta(seconds=3600), t0 + timedelta(seconds=7200)
+        pts = [orb0.propagate(t0 + timedelta(seconds=60 * i)).copy(form="cartesian", frame="EME2000") for i in range(6)]
+        labs = list(UNIFORM)
+        for head in (labs if big else ["UTC", rng.choice(labs[1:])]):
+            for other in labs:
+                for fmt in (("kvn", "xml") if big else (rng.choice(["kvn", "xml"]),)):
+                    # OPM
+                    sv = relabel(sv0, head)
+                    sv.maneuvers = [ImpulsiveMan(m1.change_scale(other), [1.0, 0.0, 0.0]), ContinuousMan(m2.change_scale(other), timedelta(seconds=60), dv=[0.0, 1.0, 0.0], date_pos="start")]
+                    # OEM: first point decides TIME_SYSTEM, the others carry the other label
+                    eph = Ephem([relabel(p, head if i == 0 else other) for i, p in enumerate(pts)])
+                    for kind, obj, exp in (("opm-maneuver", sv, [t0, m1, m2]), ("oem-point", eph, [p.date for p in pts])):
+                        out.count(key=("ccsds-mixed", kind, head, other, fmt), nontrivial=head != other, op="ccsds-mixed-" + kind, label=f"{head}/{other}")
+                        inp = {"message": kind, "fmt": fmt, "TIME_SYSTEM_from": head, "other_epochs_labelled": other}
+                        try:
+                            back = io_ccsds.loads(io_ccsds.dumps(obj, fmt=fmt))
+                            got = ([back.date] + [getattr(m, "date", None) or m.start for m in back.maneuvers]) if kind == "opm-maneuver" else [p.date for p in back]
+                        except Exception as e:  # noqa: BLE001
+                            out.fail(f"ccsds-write:{kind}:label-dependent", "dumps/loads raises", inp, observed=repr(e), expected=[str(e_) for e_ in exp])
+                            continue
+                        moved = [round((g - e).total_seconds(), 6) for g, e in zip(got, exp)]
+                        if len(got) != len(exp) or any(abs(m) > 1.5e-6 for m in moved):
+                            # the narrow family of the open finding: each epoch written as its own-scale clock reading under the
+                            # head's TIME_SYSTEM, i.e. displaced by exactly (other − head) of the scale offsets
+                            d_exp = (minus_utc(other, int(t0.mjd), "real") - minus_utc(head, int(t0.mjd), "real")) / 1e6
+                            # (an Ephem sorts its points by date on reading: compare as sets of instants)
+                            pred = sorted((e_ - t0).total_seconds() + (0.0 if i == 0 else d_exp) for i, e_ in enumerate(exp))
+                            seen = sorted((g - t0).total_seconds() for g in got)
+                            is_known = head != other and len(got) == len(exp) and all(abs(a_ - b_) <= 2e-6 for a_, b_ in zip(pred, seen))
+                            out.fail("ccsds-mixed-scale-epochs" if is_known else f"ccsds-write:{kind}:label-dependent",
+                                     "epochs labelled with another scale than the date that decides TIME_SYSTEM are written as clock readings of their own scale: read back, they are other instants",
+                                     inp, observed={"moved_s": moved, "read": [str(g) for g in got][:4]}, expected={"moved_s": [0.0] * len(exp), "written": [str(e_) for e_ in exp][:4]})
